@@ -6,7 +6,10 @@
    in order of delivery) and the mkdir(parents=True) calls; impl_extract_all: extractall.
    all_members a: every non-directory member once, under its own name, with its own bytes.
    sel: the decision of _extract (`in targets` / `startswith`); spec_sel: named members and
-   members beneath a named directory. *)
+   members beneath a named directory.
+   stored: which numbering the folder file lists carry: false = py7zr as it is
+   (ArchiveFileList offset+index), true = the repaired numbering (header index of each member);
+   the harness observes which one the implementation has and uses the model with that flag. *)
 From P7 Require Import Prelude Select SelectProofs.
 From Coq Require Import Permutation.
 
@@ -16,37 +19,50 @@ From Coq Require Import Permutation.
    only along '/' boundaries: the selective result -- delivered members with bytes and order,
    and the directories made -- is the restriction of the full result, and the full result is
    every member with its own bytes *)
-Theorem C09_extract_restrict : forall m a T recursive,
-  wf_archive a -> ids_consistent a -> targets_prefix_ok a T ->
-  delivered (impl_extract m a T recursive)
-  = filter (fun x => spec_sel T recursive (fst x)) (delivered (impl_extract_all m a))
-  /\ delivered (impl_extract_all m a) = all_members a.
+Theorem C09_extract_restrict : forall stored m a T recursive,
+  wf_archive a -> ids_consistent stored a -> targets_prefix_ok a T ->
+  delivered (impl_extract stored m a T recursive)
+  = filter (fun x => spec_sel T recursive (fst x)) (delivered (impl_extract_all stored m a))
+  /\ delivered (impl_extract_all stored m a) = all_members a.
 Proof. exact extract_restrict. Qed.
 Print Assumptions C09_extract_restrict.
 
-Theorem C09_extract_restrict_full : forall m a T recursive,
-  wf_archive a -> ids_consistent a -> targets_prefix_ok a T ->
-  impl_extract m a T recursive = spec_run m a (spec_sel T recursive)
-  /\ impl_extract_all m a = spec_run m a all_true.
+Theorem C09_extract_restrict_full : forall stored m a T recursive,
+  wf_archive a -> ids_consistent stored a -> targets_prefix_ok a T ->
+  impl_extract stored m a T recursive = spec_run m a (spec_sel T recursive)
+  /\ impl_extract_all stored m a = spec_run m a all_true.
 Proof. exact extract_restrict_full. Qed.
 Print Assumptions C09_extract_restrict_full.
 
 (* the quantifier of the property: prefix-free member names, targets = member names (with or
    without a trailing slash) or absent names that are no string prefix of a member name *)
-Theorem C09_extract_restrict_members : forall m a T recursive,
-  wf_archive a -> prefix_free_names a -> ids_consistent a ->
+Theorem C09_extract_restrict_members : forall stored m a T recursive,
+  wf_archive a -> prefix_free_names a -> ids_consistent stored a ->
   (forall t, In t T -> In (remove_trailing_slash t) (names a)
                        \/ (forall n, In n (names a) -> startswith n (remove_trailing_slash t) = false)) ->
-  delivered (impl_extract m a T recursive)
-  = filter (fun x => spec_sel T recursive (fst x)) (delivered (impl_extract_all m a))
-  /\ delivered (impl_extract_all m a) = all_members a.
+  delivered (impl_extract stored m a T recursive)
+  = filter (fun x => spec_sel T recursive (fst x)) (delivered (impl_extract_all stored m a))
+  /\ delivered (impl_extract_all stored m a) = all_members a.
 Proof. exact extract_restrict_members. Qed.
 Print Assumptions C09_extract_restrict_members.
 
 (* single-folder (solid) archives with any number of members satisfy the numbering hypothesis *)
-Theorem C09_single_folder_consistent : forall a, (numfolders a <= 1)%nat -> ids_consistent a.
+Theorem C09_single_folder_consistent : forall stored a, (numfolders a <= 1)%nat -> ids_consistent stored a.
 Proof. exact ids_consistent_single. Qed.
 Print Assumptions C09_single_folder_consistent.
+
+(* with the repaired numbering the hypothesis is met by every archive *)
+Theorem C09_stored_numbering_consistent : forall a, ids_consistent true a.
+Proof. exact ids_consistent_stored. Qed.
+Print Assumptions C09_stored_numbering_consistent.
+
+Theorem C09_extract_restrict_stored : forall m a T recursive,
+  wf_archive a -> targets_prefix_ok a T ->
+  delivered (impl_extract true m a T recursive)
+  = filter (fun x => spec_sel T recursive (fst x)) (delivered (impl_extract_all true m a))
+  /\ delivered (impl_extract_all true m a) = all_members a.
+Proof. exact extract_restrict_stored. Qed.
+Print Assumptions C09_extract_restrict_stored.
 
 (* all_members is every non-directory member exactly once *)
 Theorem C09_all_members_once : forall a, Permutation (all_members a) (canon (all_files a)).
@@ -57,16 +73,16 @@ Print Assumptions C09_all_members_once.
    between two data members of a later folder the folder's file list is numbered offset+index *)
 Theorem C09_extract_restrict_multifolder_refuted :
   exists a T, wf_archive a /\ prefix_free_names a /\ (forall t, In t T -> In t (names a)) /\
-    ~ ids_consistent a /\
-    delivered (impl_extract false a T false)
+    ~ ids_consistent false a /\
+    delivered (impl_extract false false a T false)
       <> filter (fun x => spec_sel T false (fst x)) (all_members a) /\
-    delivered (impl_extract_all false a) <> all_members a.
+    delivered (impl_extract_all false false a) <> all_members a.
 Proof. exact extract_restrict_multifolder_refuted. Qed.
 Print Assumptions C09_extract_restrict_multifolder_refuted.
 
 Theorem C09_multifolder_defect_behaviour :
-  delivered (impl_extract false witness_defect [wD3] false) = [] /\
-  delivered (impl_extract_all false witness_defect)
+  delivered (impl_extract false false witness_defect [wD3] false) = [] /\
+  delivered (impl_extract_all false false witness_defect)
   = [(wA, [1; 1; 1; 1]%Z); (wB, [2; 2]%Z); (wD1, [3; 3; 3; 3]%Z); (wD2, [5; 5; 5]%Z)] /\
   all_members witness_defect
   = [(wA, [1; 1; 1; 1]%Z); (wB, [2; 2]%Z); (wD1, [3; 3; 3; 3]%Z); (wD2, [4; 4; 4; 4; 4; 4]%Z);
@@ -75,9 +91,9 @@ Proof. exact multifolder_defect_behaviour. Qed.
 
 (* ..._partial: what holds of every archive, that layout included: the selective result is the
    restriction (by the implementation's own filter) of whatever extractall delivers *)
-Theorem C09_extract_restrict_partial : forall m a T recursive,
-  delivered (impl_extract m a T recursive)
-  = filter (fun x => sel T recursive (fst x)) (delivered (impl_extract_all m a)).
+Theorem C09_extract_restrict_partial : forall stored m a T recursive,
+  delivered (impl_extract stored m a T recursive)
+  = filter (fun x => sel T recursive (fst x)) (delivered (impl_extract_all stored m a)).
 Proof. exact extract_restrict_relative. Qed.
 Print Assumptions C09_extract_restrict_partial.
 
@@ -88,10 +104,10 @@ Proof. exact sel_spec_agree. Qed.
 Print Assumptions C09_sel_spec_agree.
 
 (* names that are not in the archive are ignored *)
-Theorem C09_absent_ignored : forall m a t T recursive,
+Theorem C09_absent_ignored : forall stored m a t T recursive,
   ~ In (remove_trailing_slash t) (names a) ->
   (recursive = true -> forall n, In n (names a) -> startswith n (remove_trailing_slash t) = false) ->
-  impl_extract m a (t :: T) recursive = impl_extract m a T recursive.
+  impl_extract stored m a (t :: T) recursive = impl_extract stored m a T recursive.
 Proof. exact absent_ignored. Qed.
 Print Assumptions C09_absent_ignored.
 
@@ -100,56 +116,56 @@ Print Assumptions C09_absent_ignored.
 Theorem C09_absent_ignored_refuted :
   exists a t T, wf_archive a /\ prefix_free_names a /\ ~ In (remove_trailing_slash t) (names a) /\
     (forall n, In n (names a) -> startswith n (remove_trailing_slash t ++ [47%Z]) = false) /\
-    delivered (impl_extract false a (t :: T) true) <> delivered (impl_extract false a T true).
+    delivered (impl_extract false false a (t :: T) true) <> delivered (impl_extract false false a T true).
 Proof. exact absent_ignored_refuted. Qed.
 Print Assumptions C09_absent_ignored_refuted.
 
 (* a trailing slash on a target is immaterial; list or set, order and repetition are immaterial *)
-Theorem C09_trailing_slash_immaterial : forall m a T1 t T2 recursive,
+Theorem C09_trailing_slash_immaterial : forall stored m a T1 t T2 recursive,
   remove_trailing_slash t = t ->
-  impl_extract m a (T1 ++ (t ++ [47%Z]) :: T2) recursive = impl_extract m a (T1 ++ t :: T2) recursive.
+  impl_extract stored m a (T1 ++ (t ++ [47%Z]) :: T2) recursive = impl_extract stored m a (T1 ++ t :: T2) recursive.
 Proof. exact trailing_slash_immaterial. Qed.
 Print Assumptions C09_trailing_slash_immaterial.
 
-Theorem C09_targets_as_set : forall m a T T' recursive,
-  (forall x, In x T <-> In x T') -> impl_extract m a T recursive = impl_extract m a T' recursive.
+Theorem C09_targets_as_set : forall stored m a T T' recursive,
+  (forall x, In x T <-> In x T') -> impl_extract stored m a T recursive = impl_extract stored m a T' recursive.
 Proof. exact targets_as_set. Qed.
 Print Assumptions C09_targets_as_set.
 
 (* nothing else is created: the directories made are exactly the selected directory entries,
    their ancestors, and the ancestors of the selected members; none with a WriterFactory *)
-Theorem C09_only_parents_created : forall a p d,
-  ids_consistent a ->
-  (In d (dirs_created (run true a p)) <->
+Theorem C09_only_parents_created : forall stored a p d,
+  ids_consistent stored a ->
+  (In d (dirs_created (run stored true a p)) <->
    d <> [] /\ exists e rest, In e a /\ p (ename e) = true /\ comps (ename e) = d ++ rest
                             /\ (is_dir e = true \/ rest <> [])).
 Proof. exact only_parents_created. Qed.
 Print Assumptions C09_only_parents_created.
 
-Theorem C09_factory_creates_no_directories : forall a p, dirs_created (run false a p) = [].
+Theorem C09_factory_creates_no_directories : forall stored a p, dirs_created (run stored false a p) = [].
 Proof. exact factory_creates_no_directories. Qed.
 
 (* non-vacuity *)
 Example C09_healthy_multifolder_hypotheses :
-  wf_archive witness_healthy /\ prefix_free_names witness_healthy /\ ids_consistent witness_healthy /\
+  wf_archive witness_healthy /\ prefix_free_names witness_healthy /\ ids_consistent false witness_healthy /\
   targets_prefix_ok witness_healthy [wD3; wE ++ [47%Z]] /\ numfolders witness_healthy = 2%nat.
 Proof. exact healthy_witness_hypotheses. Qed.
 
 Example C09_single_folder_example :
   wf_archive witness_single /\ prefix_free_names witness_single /\ numfolders witness_single = 1%nat /\
-  impl_extract true witness_single [wDir ++ [47%Z]; wB] true
+  impl_extract false true witness_single [wDir ++ [47%Z]; wB] true
   = mkR [(wNested, [2; 2]%Z); (wB, [3]%Z)] [[wDir]; [wDir; [100%Z]]; []] /\
-  dirs_created (impl_extract true witness_single [wDir ++ [47%Z]; wB] true)
+  dirs_created (impl_extract false true witness_single [wDir ++ [47%Z]; wB] true)
   = [[wDir]; [wDir]; [wDir; [100%Z]]].
 Proof. exact single_witness_behaviour. Qed.
 
 Example C09_absent_ignored_example :
   ~ In (remove_trailing_slash [113%Z]) (names witness_single) /\
   (forall n, In n (names witness_single) -> startswith n (remove_trailing_slash [113%Z]) = false) /\
-  impl_extract true witness_single [[113%Z]; wB] true = impl_extract true witness_single [wB] true.
+  impl_extract false true witness_single [[113%Z]; wB] true = impl_extract false true witness_single [wB] true.
 Proof. exact absent_ignored_example. Qed.
 
 Example C09_trailing_slash_example :
   remove_trailing_slash wDir = wDir /\
-  impl_extract true witness_single [wDir ++ [47%Z]] true = impl_extract true witness_single [wDir] true.
+  impl_extract false true witness_single [wDir ++ [47%Z]] true = impl_extract false true witness_single [wDir] true.
 Proof. split; reflexivity. Qed.
